@@ -653,13 +653,17 @@ impl Typer {
             && let Some(method_ty) =
                 trait_env.lookup_trait_method(&tast::TastIdent(trait_name.clone()), &member_ident)
         {
-            let inst_ty = self.inst_ty(&method_ty);
-            return tast::Expr::ETraitMethod {
-                trait_name: tast::TastIdent(trait_name),
-                method_name: member_ident.clone(),
-                ty: inst_ty,
-                astptr,
-            };
+            // Which implementation `Trait::method` names is decided by the receiver of a call;
+            // as a value on its own it names none (its type still mentions Self).
+            let _ = method_ty;
+            super::util::push_error(
+                diagnostics,
+                format!(
+                    "Trait method {}::{} can only be called; wrap the call in a closure to use it as a value",
+                    trait_name, member
+                ),
+            );
+            return self.error_expr(astptr);
         }
 
         // Check if type_name is an enum or struct for inherent method lookup
